@@ -46,7 +46,7 @@ Complete(g) ==
     /\ st' = [st EXCEPT ![g] = "kept"] /\ UNCHANGED tmp
 
 \* the guard is dropped by a panic unwinding through its scope: the same completion
-CompleteByUnwind(g) == Complete(g)
+CompleteByUnwind(g) == st[g] = "live" /\ Complete(g)
 
 \* broken variant: get() ... set() with the lock released in between
 Read(g) ==
